@@ -153,6 +153,13 @@ Definition load (st : strmap) (kk : list bytes) (vv : list V) : strmap * res uni
 Definition load_map (st : strmap) (visit : list (bytes * V)) : strmap * res unit :=
   load st (map fst visit) (map snd visit).
 
+(* a history of LoadFromSlice calls on one instance (failed ones included) *)
+Fixpoint run_loads (st : strmap) (h : list (list bytes * list V)) : strmap :=
+  match h with
+  | [] => st
+  | (kk, vv) :: r => run_loads (fst (load st kk vv)) r
+  end.
+
 (* m.data[e.off : e.off+int(e.sz)].  Bounds are checked against len(data); Go checks a slice
    expression against cap(data), the difference is reachable only from states no load produces. *)
 Definition key_of (d : bytes) (e : item) : res bytes :=
@@ -214,5 +221,5 @@ Arguments table {V}. Arguments tspare {V}.
 Arguments new_map {V}.
 Arguments insert_by_slot {V}. Arguments isort {V}.
 Arguments build {V}. Arguments set_slot {V}. Arguments fill {V}. Arguments make_hashtable {V}.
-Arguments load {V}. Arguments load_map {V}. Arguments key_of {V}. Arguments scan {V}. Arguments get {V}.
+Arguments load {V}. Arguments load_map {V}. Arguments run_loads {V}. Arguments key_of {V}. Arguments scan {V}. Arguments get {V}.
 Arguments map_len {V}. Arguments item_at {V}. Arguments enumerate_from {V}. Arguments enumerate {V}.
